@@ -160,12 +160,15 @@ func (m *Manager) trySyncNextBlock(ctx context.Context, daHeight uint64) error {
 			return fmt.Errorf("failed to apply block: %w", err)
 		}
 
-		if err = m.updateState(ctx, newState); err != nil {
-			return fmt.Errorf("failed to save updated state: %w", err)
-		}
-
+		// The block is persisted before the state that refers to it: on restart the store height is
+		// raised to the state's height, so a state without its block would leave a hole in the
+		// chain that is never filled (the header would be discarded as already applied).
 		if err = m.store.SaveBlockData(ctx, h, d, &h.Signature); err != nil {
 			return fmt.Errorf("failed to save block: %w", err)
+		}
+
+		if err = m.updateState(ctx, newState); err != nil {
+			return fmt.Errorf("failed to save updated state: %w", err)
 		}
 
 		// Height gets updated
